@@ -55,6 +55,9 @@ def keys (m : Map α) : List Nat := m.map (·.1)
 
 def has (m : Map α) (k : Nat) : Bool := (m.get k).isSome
 
+/-- `dict.update` -/
+def update (m m2 : Map α) : Map α := m2.foldl (fun (m : Map α) (p : Nat × α) => m.set p.1 p.2) m
+
 end Map
 
 /-! ### objects, records, temporary store -/
@@ -290,7 +293,7 @@ def connAbort (s : State) : State :=
 
 /-- the `while self._added` loop of `tpc_abort` -/
 def drainAdded (s : State) : State :=
-  let s' := s.added.foldl (fun s p => disown s p.2) s
+  let s' := s.added.foldl (fun (s : State) (p : Oid × ObjId) => disown s p.2) s
   { s' with added := [] }
 
 /-- `Connection.tpc_abort` (a `KeyError` — logged and swallowed by `transaction._cleanup` — when
@@ -393,8 +396,8 @@ def storeOne (s : State) (i : ObjId) : Except Err State × State × List ObjId :
 /-- `_store_objects(ObjectWriter(obj))`: drain the writer's stack (head = top).  `fuel` bounds the
     number of iterations (`Proofs` shows the bound passed by `connCommit` always suffices). -/
 def storeObjects : Nat → State → List ObjId → State × Option Err
-  | 0, s, _ => (s, some .assertion)
-  | _ + 1, s, [] => (s, none)
+  | _, s, [] => (s, none)
+  | 0, s, _ :: _ => ({ s with d1 := true }, some .assertion)
   | fuel + 1, s, i :: rest =>
     let new := match (s.objs i).oid with
                | some k => isNewObj s (s.objs i) k
@@ -425,7 +428,7 @@ def commitLoop (fuel : Nat) : State → List ObjId → State × Option Err
 
 /-- `_commit`; `bound` = number of Python objects the program holds -/
 def connCommitPlain (bound : Nat) (s : State) : State × Option Err :=
-  commitLoop (2 * bound + 2) s s.registered
+  commitLoop (bound + 1) s s.registered
 
 /-- `Connection.savepoint` (returns the savepoint's state) -/
 def connSavepoint (bound : Nat) (s : State) : State × Option Err :=
@@ -437,7 +440,7 @@ def connSavepoint (bound : Nat) (s : State) : State × Option Err :=
   | (s, some e) => (s, some e)
   | (s, none) =>
     let s := match s.sp with
-             | some t => { s with sp := some { t with creating := s.creating.foldl (fun m p => m.set p.1 p.2) t.creating } }
+             | some t => { s with sp := some { t with creating := t.creating.update s.creating } }
              | none => s
     ({ s with creating := [], registered := [] }, none)
 
@@ -468,7 +471,7 @@ def commitSavepoint (s : State) : State × Option Err :=
     let s := { s with sp := none }
     let oids := src.index.keys
     let s := { s with modified := s.modified ++ oids,
-                      creating := src.creating.foldl (fun m p => m.set p.1 p.2) s.creating }
+                      creating := s.creating.update src.creating }
     replay src s oids
 
 /-- `Connection.tpc_begin` -/
@@ -495,8 +498,8 @@ def finishOne (tid : Tid) (s : State) (k : Oid) : State :=
 /-- the storage's `tpc_finish` followed by `Connection.tpc_finish` -/
 def connTpcFinish (s : State) : State :=
   let tid := s.lastTid + 1
-  let s := { s with committed := s.staged.foldl (fun m p => m.set p.1 { p.2 with serial := tid }) s.committed,
-                    log := (tid, s.staged.map (·.1)) :: s.log, lastTid := tid, staged := [] }
+  let s := { s with committed := s.staged.foldl (fun (m : Map Rec) (p : Oid × Rec) => m.set p.1 { p.2 with serial := tid }) s.committed,
+                    log := (tid, s.staged.map Prod.fst) :: s.log, lastTid := tid, staged := [] }
   let s := (s.modified ++ s.creating.keys).foldl (finishOne tid) s
   tpcCleanup s
 
